@@ -13,8 +13,21 @@
 (*   pools     : Seq(STRING)   declared pools (incl. the built-in console)  *)
 (*   edges     : Seq([rule, ins, imp, ord, outs, iouts])                     *)
 (*   edge_pools: Seq(STRING)   pool binding of every edge ("" = none)       *)
+(*   edge_rsp  : Seq([file, content, used : BOOLEAN, cmdlen, rsplen : Nat]) *)
+(*               response-file view of every edge (optional field): are      *)
+(*               `rspfile` / `rspfile_content` bound for the statement (in    *)
+(*               its build block or its rule), does the expanded command name *)
+(*               the response file, length of the expanded command and of the *)
+(*               expanded rspfile_content                                     *)
 (*   defaults  : Seq(STRING)   paths of `default` statements                *)
 (*   errors    : Seq(STRING)   lexical / syntactic errors of the reader     *)
+(*   edge_meta : Seq([deps, depfile : STRING, generator, restat : BOOLEAN]) *)
+(*               the special rule variables of every edge, expanded         *)
+(*               (optional field)                                            *)
+(*   rule_meta : Seq([name, deps, depfile, restat, generator, pool,         *)
+(*               description : STRING]) unexpanded rule-level values         *)
+(*               (optional field, used by RuleFlavours)                      *)
+(*   pool_depths: Seq(Nat)     depth of every declared pool (optional)       *)
 (* Exists is the set of paths present after configuration.                 *)
 (***************************************************************************)
 EXTENDS Naturals, Sequences, FiniteSets
@@ -40,6 +53,40 @@ RulesDefined(M) == UndefinedRuleEdges(M) = {} /\ M.dup_rules = <<>>
 \* a pool named by an edge must be declared
 UndefinedPoolEdges(M) == {e \in DOMAIN M.edge_pools : M.edge_pools[e] # "" /\ M.edge_pools[e] \notin Rng(M.pools)}
 PoolsDefined(M) == UndefinedPoolEdges(M) = {}
+
+\* "Rule variables", rspfile / rspfile_content: "if present (both), Ninja will use a response file for the
+\* given command" - a statement for which one of them is bound binds the other one too; and the command
+\* has to name the file (manual: `command = link.exe ... @$out.rsp`), else the arguments moved into the
+\* file are lost.  (M.edge_rsp is read through an accessor: graphs built without it keep their meaning.)
+EdgeRsp(M) == IF "edge_rsp" \in DOMAIN M THEN M.edge_rsp ELSE <<>>
+UsesRspFile(M, e) == e \in DOMAIN EdgeRsp(M) /\ EdgeRsp(M)[e].file
+HalfBoundRspEdges(M) == {e \in DOMAIN EdgeRsp(M) : EdgeRsp(M)[e].file # EdgeRsp(M)[e].content}
+RspBound(M) == HalfBoundRspEdges(M) = {}
+UnusedRspEdges(M) == {e \in DOMAIN EdgeRsp(M) : EdgeRsp(M)[e].file /\ ~EdgeRsp(M)[e].used}
+RspUsed(M) == UnusedRspEdges(M) = {}
+
+\* "Rule variables", deps: "if present, must be one of gcc or msvc"; with deps = gcc the dependencies are read
+\* from the depfile the command writes (ninja: "edge with deps=gcc but no depfile makes no sense").  A depfile
+\* belongs to one statement: ninja reads it - and with deps deletes it - when that statement's command finished.
+EdgeMeta(M) == IF "edge_meta" \in DOMAIN M THEN M.edge_meta ELSE <<>>
+BadDepsEdges(M) == {e \in DOMAIN EdgeMeta(M) : EdgeMeta(M)[e].deps \notin {"", "gcc", "msvc"}}
+NoDepfileEdges(M) == {e \in DOMAIN EdgeMeta(M) : EdgeMeta(M)[e].deps = "gcc" /\ EdgeMeta(M)[e].depfile = ""}
+DepsConsistent(M) == BadDepsEdges(M) = {} /\ NoDepfileEdges(M) = {}
+SharedDepfiles(M) == {EdgeMeta(M)[e].depfile : e \in {x \in DOMAIN EdgeMeta(M) :
+                         EdgeMeta(M)[x].depfile # "" /\ \E y \in DOMAIN EdgeMeta(M) : y # x /\ EdgeMeta(M)[y].depfile = EdgeMeta(M)[x].depfile}}
+DepfilesUnique(M) == SharedDepfiles(M) = {}
+\* "generator: if present, specifies that this rule is used to re-invoke the generator program.  Files built using
+\* generator rules ... will not be rebuilt if the command line changes; and ... are not cleaned by default": the
+\* statement(s) producing the manifest itself must be of that sort, or `ninja -t clean` removes the manifest
+ManifestEdges(M, manifest) == {e \in EdgeIds(M) : manifest \in Outs(M, e)}
+NonGeneratorManifestEdges(M, manifest) ==
+    {e \in ManifestEdges(M, manifest) : e \in DOMAIN EdgeMeta(M) /\ ~EdgeMeta(M)[e].generator}
+RegenIsGenerator(M, manifest) == NonGeneratorManifestEdges(M, manifest) = {}
+\* "Pools": a pool is declared with its depth
+PoolDeclared(M, name) == name \in Rng(M.pools)
+PoolDepth(M, name) ==
+    IF "pool_depths" \in DOMAIN M /\ PoolDeclared(M, name)
+    THEN M.pool_depths[CHOOSE k \in DOMAIN M.pools : M.pools[k] = name] ELSE 0
 
 \* every statement needs an output
 HasOutputs(M) == \A e \in EdgeIds(M) : Len(OutSeq(M, e)) > 0
@@ -102,6 +149,8 @@ ReachPaths(M, roots) == OutsOf(M, ReachEdges(M, roots, {})) \cup roots
 WellFormed(M, Exists) ==
     /\ M.errors = <<>>
     /\ RulesDefined(M) /\ PoolsDefined(M) /\ HasOutputs(M)
+    /\ RspBound(M) /\ RspUsed(M)
+    /\ DepsConsistent(M)
     /\ UniqueProducer(M)
     /\ Closed(M, Exists)
     /\ Buildable(M, Exists)
